@@ -20,6 +20,7 @@ RULE = (
     "same inputs whose output has the truth table of c. Non-trivial: >= 2 supergates or a reconvergent "
     "cone. Distinct by digest."
 )
+RULE += ' Added after seeded-change rounds 4-5: circuits with 5..9 inputs and 12..28 gates (deeper nesting of supergates).'
 ASSUMPTIONS = [
     "reference simulator cgv.refsim",
     "the fan-in-limited circuit is reconstructed from the supergates themselves and validated semantically against c (limit_fanin itself is property C05)",
